@@ -1,6 +1,6 @@
 (** The tokenizer model instantiated with the tables regenerated from tokenizer.py (Gen/EscTables_gen.v). *)
 From Coq Require Import List NArith Bool.
-From SV Require Import Text.Str Text.Escape Text.Tokenizer.
+From SV Require Import Text.Str Text.Escape Text.EscPipeline Text.Tokenizer.
 From SV Require Gen.EscTables_gen.
 Import ListNotations.
 Open Scope N_scope.
@@ -25,10 +25,17 @@ Definition gen_operators : list (char * tok) :=
 Definition gen_casefold (c : char) : list char :=
   match lookup c G.casefold_table with Some l => l | None => [c] end.
 
+(** [escape_text] as read from the source: a pipeline of whole-string steps. *)
+Definition gen_pipeline : pipeline := map step_of_row G.esc_pipeline.
+(** The model of [escape_text] that follows the code whatever its shape (used by the correspondences). *)
+Definition gen_escape (ml : bool) (s : str) : str := run_pipeline G.esc_table gen_pipeline ml s.
+
+(** The exclusion strings are those of the single substitution of each mode (empty if the pipeline has another
+    shape; the obligation [escape_text_is_one_table_substitution_*] then fails). *)
 Definition gen_tables : tables := {|
   esc_table := G.esc_table;
-  excl_single := G.esc_excl_single;
-  excl_multi := G.esc_excl_multi;
+  excl_single := excl_of gen_pipeline false;
+  excl_multi := excl_of gen_pipeline true;
   bare_disallowed := G.bare_disallowed;
   operators := gen_operators;
   casefold := gen_casefold |}.
@@ -49,3 +56,8 @@ Definition operators_all_known : bool := Nat.eqb (length gen_operators) (length 
 (** the replacement text is one backslash followed by the symbol *)
 Definition esc_prefix_is_backslash : bool :=
   match G.esc_prefix with [c] => c =? BS | _ => false end.
+
+(** [escape_text] is, in each mode, exactly one regex substitution with the table callback: the shape for which
+    [EscPipelineProofs.pipeline_is_escape] identifies it with the per-character model [Escape.escape gen_tables]. *)
+Definition escape_rows_wellformed : bool := rows_wellformed G.esc_pipeline.
+Definition escape_is_one_substitution (ml : bool) : bool := is_single_sub gen_pipeline ml.
